@@ -38,6 +38,17 @@ func verifYieldPoint() {
 	}
 }
 
+// VerifNoYield, when set, brackets a call that runs caller code under a lock of the
+// standard library (sync.Once.Do): a task parked in there would make every other task
+// that reaches the same Once block for real, behind the scheduler's back.
+var VerifNoYield func(delta int)
+
+func verifNoYield(delta int) {
+	if f := VerifNoYield; f != nil {
+		f(delta)
+	}
+}
+
 // VerifAutoLock, when set, is called before a Lock()/RLock() the sources do not announce
 // with verifPoint: try reports whether the lock could be taken right now, unlock undoes it.
 var VerifAutoLock func(try func() bool, unlock func())
@@ -176,6 +187,20 @@ func lockCall(s ast.Stmt) (recv ast.Expr, read bool, ok bool) {
 	return nil, false, false
 }
 
+// isDoCall recognises `X.Do(f)` statements (sync.Once and look-alikes).
+func isDoCall(s ast.Stmt) bool {
+	es, ok := s.(*ast.ExprStmt)
+	if !ok {
+		return false
+	}
+	ce, ok := es.X.(*ast.CallExpr)
+	if !ok || len(ce.Args) != 1 {
+		return false
+	}
+	sel, ok := ce.Fun.(*ast.SelectorExpr)
+	return ok && sel.Sel.Name == "Do"
+}
+
 func method(recv ast.Expr, name string) ast.Expr {
 	return &ast.CallExpr{Fun: &ast.SelectorExpr{X: recv, Sel: ast.NewIdent(name)}}
 }
@@ -205,8 +230,14 @@ func instrument(list []ast.Stmt, nYield, nLock *int) []ast.Stmt {
 			out = append(out, s)
 			continue
 		}
-		if isCallTo(s, "verifPoint") {
+		if isCallTo(s, "verifPoint") || isCallTo(s, "verifNoYield") {
 			out = append(out, s)
+			continue
+		}
+		if isDoCall(s) {
+			out = append(out, call("verifYieldPoint"), call("verifNoYield", &ast.BasicLit{Kind: token.INT, Value: "1"}), s,
+				call("verifNoYield", &ast.UnaryExpr{Op: token.SUB, X: &ast.BasicLit{Kind: token.INT, Value: "1"}}))
+			*nYield++
 			continue
 		}
 		switch s.(type) {
